@@ -47,3 +47,11 @@ Proof. intros H. induction xs as [|x xs IH]; cbn; [reflexivity|]. unfold ksum in
 
 Lemma map_ext_R {X Y} (f g : X -> Y) xs : (forall x, f x = g x) -> map f xs = map g xs.
 Proof. intros H. apply map_ext. exact H. Qed.
+
+Lemma kzip2_ext {A B E} (f g : A -> B -> E) a b : (forall x y, f x y = g x y) -> kzip2 f a b = kzip2 g a b.
+Proof. intros H. revert b; induction a as [|x a IH]; intros [|y b]; cbn; auto. now rewrite H, IH. Qed.
+Lemma kzip3_ext {A B C E} (f g : A -> B -> C -> E) a b c : (forall x y z, f x y z = g x y z) -> kzip3 f a b c = kzip3 g a b c.
+Proof. intros H. revert b c; induction a as [|x a IH]; intros [|y b] [|z c]; cbn; auto. now rewrite H, IH. Qed.
+Lemma kzip4_ext {A B C D E} (f g : A -> B -> C -> D -> E) a b c d :
+  (forall x y z w, f x y z w = g x y z w) -> kzip4 f a b c d = kzip4 g a b c d.
+Proof. intros H. revert b c d; induction a as [|x a IH]; intros [|y b] [|z c] [|w d]; cbn; auto. now rewrite H, IH. Qed.
